@@ -91,7 +91,66 @@ def c05(tier, seed):
     return c.finish()
 
 
-PROPS = {"C01": c01, "C02": c02, "C03": c03, "C04": c04, "C05": c05}
+def life_family(c, tier, seed, want):
+    """Construct/drop every driver for many offered-feature sets, failing allocations and config
+    faults; validate the driver-level trace against Lifecycle.tla and every queue's trace
+    against VirtQueue.tla."""
+    out = os.path.join(WORK, c.pid, "life.ndjson")
+    idx = run_harness("life", out, seed, tier)
+    v = validate_traces("LifecycleTrace", "LifecycleTrace.cfg", out, idx, max_events=3000)
+    c.add_validation(v, "life")
+    res = {}
+    for s_, r in zip(idx["scenarios"], idx["summaries"]):
+        key = (s_["params"]["kind"], r["result"].split(":")[0])
+        res[key] = res.get(key, 0) + 1
+    c.extra["constructions_by_driver_and_result"] = {f"{k[0]}:{k[1]}": n for k, n in sorted(res.items())}
+    c.samples.append({"family": "life", "scenario": idx["scenarios"][5], "summary": idx["summaries"][5]})
+    if want == "queues":
+        qv = validate_traces("VirtQueueTrace", "VirtQueueTrace.cfg", out + ".q.ndjson", {"scenarios": []})
+        qv["scenarios"] = 0
+        c.add_validation(qv, "life/queues")
+    if not c.violations:
+        for f in (out, out + ".q.ndjson"):
+            if os.path.exists(f):
+                os.remove(f)
+
+
+def c06(tier, seed):
+    c = Check("C06", tier, seed)
+    c.rule = "TLC: the crate's layout arithmetic satisfies the property for all 16 sizes x legacy/modern x region bases (ASSUMEs of LayoutMC) and the life-cycle machine for every transport answer; traces: VirtQueue::new..drop for every size x layout x flag combination x (in-use, max) answer, DMA bases crossing 32-bit boundaries; distinct = configurations"
+    c.assumptions = ["LedgerHal's DMA ledger; ModelTransport answers as configured", "real MMIO/PCI transports are covered by C10/C11 (queue_set register values)"]
+    c.add_mc(run_tlc_mc("LayoutMC", "LayoutMC.cfg", workers=4, timeout=600))
+    out = os.path.join(WORK, c.pid, "layout.ndjson")
+    idx = run_harness("layout", out, seed, tier)
+    v = validate_traces("LayoutTrace", "LayoutTrace.cfg", out, idx, max_events=3000)
+    c.add_validation(v, "layout")
+    c.samples.append({"family": "layout", "scenario": idx["scenarios"][0], "summary": idx["summaries"][0]})
+    c.samples.append({"family": "layout", "scenario": idx["scenarios"][-1], "summary": idx["summaries"][-1]})
+    c.extra["exhaustive_configurations"] = True
+    if not c.violations:
+        os.remove(out)
+    return c.finish()
+
+
+def c08(tier, seed):
+    c = Check("C08", tier, seed)
+    c.rule = "MC: generic driver over all subsets of a 6-bit feature projection (negotiation is bit-wise, checked as an ASSUME), negative configurations (DRIVER_OK before queues, accepting unsupported bits) must be refused; traces: all 11 drivers x {no features, all ones, each single bit 0..63, random sets} x legacy/modern on the model transport: ordered transport calls validated against Lifecycle.tla, every queue's trace validated against VirtQueue.tla with the negotiated indirect/event-idx/access-platform bits"
+    c.assumptions = ["Supported(dev) in Lifecycle.tla is the documented supported set of each driver", "device-specific feature-gated requests are decided by the device specs (C14-C20)"]
+    mc(c, ["Life_q3_modern", "Life_q2_legacy"], tier, module="LifecycleMC", negative=["Life_bug_early_ok", "Life_bug_accept_all"])
+    life_family(c, tier, seed, "queues")
+    return c.finish()
+
+
+def c09(tier, seed):
+    c = Check("C09", tier, seed, level="model_checking")
+    c.rule = "MC: generic driver, 2-3 queues, legacy/modern, every k for the failing allocation, teardown orders (negative: freeing queue memory without unset and before the transport reset); traces (fault enumeration): every driver x layout x k-th allocation failing (k=1..9) x config-space faults, then drop; DMA ledger, queue_unset/reset order and frees of still-shared heap memory validated against Lifecycle.tla"
+    c.assumptions = ["allocator interposition reports frees of memory still shared with a queue", "drop at arbitrary points of a usage history is covered by the device families (C14-C20) which end every scenario with drop"]
+    mc(c, ["Life_q3_modern", "Life_q2_legacy", "Life_ok_no_unset", "Life_ok_queues_first"], tier, module="LifecycleMC", negative=["Life_bug_live_free"])
+    life_family(c, tier, seed + 7, "none")
+    return c.finish()
+
+
+PROPS = {"C06": c06, "C08": c08, "C09": c09, "C01": c01, "C02": c02, "C03": c03, "C04": c04, "C05": c05}
 
 
 def main():
